@@ -615,6 +615,9 @@ const char *UtilContext::get_address(const char *token, uint32_t *address)
 
   token = get_num(token, address);
 
+  // The byte address has to fit in 32 bits.
+  if (*address > 0xffffffff / bytes_per_address) { return nullptr; }
+
   *address *= bytes_per_address;
 
   return token;
